@@ -20,6 +20,14 @@ FUNCS = [
     dict(file=MLD, name="calculateVoidPointerAlignedSize", coq="leaf_alignedSize"),
     dict(file=MLD, name="MemoryLeakDetector::sizeOfMemoryWithCorruptionInfo", coq="leaf_sizeWithCorruptionInfo",
          calls={"calculateVoidPointerAlignedSize": "leaf_alignedSize {0}"}),
+    # SimpleStringBuffer (C14): methods as state transformers (trace of traced calls / array stores, then the written fields)
+    dict(file=MLD, name="SimpleStringBuffer::add", coq="leaf_buf_add", mode="state",
+         calls={"PlatformSpecificVSNprintf": "vsnprintf_result"}, extra_params=["vsnprintf_result"],
+         trace=["PlatformSpecificVSNprintf"], ignore_calls=["__builtin_va_start", "__builtin_va_end"]),
+    dict(file=MLD, name="SimpleStringBuffer::clear", coq="leaf_buf_clear", mode="state"),
+    dict(file=MLD, name="SimpleStringBuffer::setWriteLimit", coq="leaf_buf_setWriteLimit", mode="state"),
+    dict(file=MLD, name="SimpleStringBuffer::resetWriteLimit", coq="leaf_buf_resetWriteLimit", mode="state"),
+    dict(file=MLD, name="SimpleStringBuffer::reachedItsCapacity", coq="leaf_buf_reachedItsCapacity"),
     dict(file="src/Platforms/Gcc/UtestPlatform.cpp", name="SetTestFailureByStatusCode", coq="leaf_SetTestFailureByStatusCode"),
     dict(file="src/CppUTest/TestFilter.cpp", name="TestFilter::match", coq="leaf_filter_match",
          calls={"operator==": "b2z (bytes_eqb {0} {1})", "contains": "b2z (contains {0} {1})"},
